@@ -8,6 +8,8 @@ mod segment;
 mod source_map;
 mod symbols;
 mod text_encoding;
+#[cfg(datatrash_mos_verif)]
+pub mod verif_hooks;
 
 pub use analysis::*;
 pub use evaluator::*;
@@ -1382,6 +1384,11 @@ pub fn codegen(
             }
         }
         ctx.after_pass().expect("Could not finalize pass");
+
+        #[cfg(datatrash_mos_verif)]
+        if verif_hooks::observe_pass(&ctx, &errors) {
+            return (Some(ctx), errors);
+        }
 
         // Are there no segments yet? Then create a default one.
         if ctx.segments.is_empty() {
